@@ -36,7 +36,8 @@ m = {
         "source_commits": [],
         "add_only": True,
     },
-    "engines": ENGINES,
+    "engines": [dict(e, serves_properties=sorted(p for p, c in CHECKS.items() if c.get("engine", "E-ENUM") == e["name"]))
+                for e in ENGINES if any(c.get("engine", "E-ENUM") == e["name"] for c in CHECKS.values())],
     "checks": checks,
     "not_applicable": na,
     "notes": "All instrumentation is overlay-only (nothing guarded is committed to /repo). Unguarded `fix:` commits in /repo are listed in known_findings.json with status fixed.",
